@@ -41,6 +41,10 @@ def check(layout, values, pad=None, list_ver="Kamstrup_V0001", apdu=None) -> lis
         return [f"decoder raised {type(ex).__name__}: {ex} for body {body.hex()[:100]}"]
     errs = [f"body: {e}" for e in RC.dict_errors(d1, RC.kam_expected(names, values, list_ver))]
     errs += [f"frame: {e}" for e in RC.dict_errors(d2, RC.kam_expected(names, values, list_ver, apdu=APDU))]
+    if not errs:
+        d1.clear()
+        d2["meter_id"] = "x"
+        errs += [f"second decode of the same body: {e}" for e in RC.dict_errors(kamstrup.decode_notification_body(bytearray(body)), RC.kam_expected(names, values, list_ver))]
     return errs
 
 
